@@ -365,7 +365,7 @@ fn run<FF: Fld>(op: &str, a: &[Arg], st: &mut Stats) -> Option<Out> {
             Some(Out::ok(format!("ok:{}", show_list(&r))).with_oracle(ok, "bulk evaluation != Horner in input order"))
         }
         "interpolate" | "lagrange_interpolate" | "lagrange_interpolate_zipped" | "fast_interpolate" | "par_interpolate"
-        | "par_fast_interpolate" => {
+        | "par_fast_interpolate" | "interpolate_dispatch" => {
             let off = if op.starts_with("par_") { 1 } else { 0 };
             let d = l(off)?;
             let v = l(off + 1)?;
@@ -378,7 +378,9 @@ fn run<FF: Fld>(op: &str, a: &[Arg], st: &mut Stats) -> Option<Out> {
                 st.hit("interpolate:length-mismatch");
             }
             let f = match op {
-                "interpolate" => Polynomial::interpolate(&d, &v),
+                // `interpolate_dispatch`: the same function under a name the model does not answer (sizes above the
+                // sequential cut-off cost the model half a minute); the certificate oracle below decides
+                "interpolate" | "interpolate_dispatch" => Polynomial::interpolate(&d, &v),
                 "lagrange_interpolate" => Polynomial::lagrange_interpolate(&d, &v),
                 "lagrange_interpolate_zipped" => {
                     if d.len() != v.len() {
@@ -529,6 +531,147 @@ fn run<FF: Fld>(op: &str, a: &[Arg], st: &mut Stats) -> Option<Out> {
                     && pts.iter().all(|&x| coset_interpolant_at(&v, off, x) == Some(horner(f.coefficients(), x))));
             Some(Out::ok(format!("ok:{}", show_poly(&f))).with_oracle(ok, "modular coset interpolant != interpolant mod modulus"))
         }
+        _ => run_api::<FF>(op, a, st),
+    }
+}
+
+// ---- G07: public functions without an op before the API audit (docs/POLY_API_COVERAGE.md) -------------------
+fn point<FF: Fld>(a: &Arg) -> Option<(FF, FF)> {
+    let l = a.list()?;
+    if l.len() != 2 {
+        return None;
+    }
+    Some((FF::parse(&l[0])?, FF::parse(&l[1])?))
+}
+/// a list is a leaf (`Leaf::new`), a pair `(l;r)` a branch (`Branch::new`), the symbol `P` is `Padding`
+fn build_tree<FF: Fld>(a: &Arg, pts: &mut Vec<FF>, st: &mut Stats) -> Option<ZerofierTree<'static, FF>> {
+    use twenty_first::math::zerofier_tree::{Branch, Leaf};
+    match a {
+        Arg::List(_) => {
+            let p = parse_list::<FF>(a)?;
+            pts.extend(p.iter().copied());
+            st.hit(&format!("tree_custom:leaf-size={}", if p.len() > 16 { ">16".into() } else if p.len() > 1 { "2..16".into() } else { p.len().to_string() }));
+            Some(ZerofierTree::Leaf(Leaf::new(p)))
+        }
+        Arg::Tup(v) if v.len() == 2 => {
+            let l = build_tree(&v[0], pts, st)?;
+            let r = build_tree(&v[1], pts, st)?;
+            if l == ZerofierTree::Padding || r == ZerofierTree::Padding {
+                st.hit("tree_custom:branch-over-padding");
+            }
+            Some(ZerofierTree::Branch(Box::new(Branch::new(l, r))))
+        }
+        Arg::Sym(s) if s == "P" => Some(ZerofierTree::Padding),
+        _ => None,
+    }
+}
+fn run_api<FF: Fld>(op: &str, a: &[Arg], st: &mut Stats) -> Option<Out> {
+    let l = |i: usize| -> Option<Vec<FF>> { parse_list::<FF>(a.get(i)?) };
+    match op {
+        "are_colinear" => {
+            let xs = l(0)?;
+            let ys = l(1)?;
+            if xs.len() != ys.len() {
+                return None;
+            }
+            let pts: Vec<(FF, FF)> = xs.iter().copied().zip(ys.iter().copied()).collect();
+            let r = Polynomial::<FF>::are_colinear(&pts);
+            // independent: at least three points, pairwise distinct abscissae, all cross products vanish
+            let distinct = all_distinct(&xs);
+            let want = pts.len() >= 3
+                && distinct
+                && pts.iter().skip(2).all(|&(x, y)| (pts[1].0 - pts[0].0) * (y - pts[0].1) == (pts[1].1 - pts[0].1) * (x - pts[0].0));
+            st.hit(&format!("are_colinear:n={} distinct={} result={}", pts.len().min(5), distinct, r));
+            let mut o = Out::ok(format!("ok:{}", r)).with_oracle(r == want, "are_colinear != (n >= 3, distinct abscissae, all points on the line through the first two)");
+            if pts.len() == 3 {
+                let r3 = Polynomial::<FF>::are_colinear_3(pts[0], pts[1], pts[2]);
+                o = o.with_oracle(r3 == r, "are_colinear_3 disagrees with are_colinear on three points");
+            }
+            Some(o)
+        }
+        "are_colinear_3" => {
+            let (p0, p1, p2) = (point::<FF>(a.first()?)?, point::<FF>(a.get(1)?)?, point::<FF>(a.get(2)?)?);
+            let r = Polynomial::<FF>::are_colinear_3(p0, p1, p2);
+            let distinct = p0.0 != p1.0 && p1.0 != p2.0 && p2.0 != p0.0;
+            let want = distinct && (p1.0 - p0.0) * (p2.1 - p0.1) == (p1.1 - p0.1) * (p2.0 - p0.0);
+            st.hit(&format!("are_colinear_3:distinct={} result={}", distinct, r));
+            // invariant under permutation of the points
+            let perm = Polynomial::<FF>::are_colinear_3(p2, p0, p1) == r && Polynomial::<FF>::are_colinear_3(p1, p0, p2) == r;
+            Some(Out::ok(format!("ok:{}", r)).with_oracle(r == want, "are_colinear_3 != cross-product test").with_oracle(perm, "are_colinear_3 depends on the order of the points"))
+        }
+        "get_colinear_y" => {
+            let (p0, p1) = (point::<FF>(a.first()?)?, point::<FF>(a.get(1)?)?);
+            let x = FF::parse(a.get(2)?)?;
+            st.hit(if p0.0 == p1.0 { "get_colinear_y:vertical(panic)" } else { "get_colinear_y:ok" });
+            let r = std::panic::catch_unwind(std::panic::AssertUnwindSafe(|| Polynomial::<FF>::get_colinear_y(p0, p1, x)));
+            match r {
+                Err(_) => Some(Out::ok("panic").with_oracle(p0.0 == p1.0, "get_colinear_y panicked although the abscissae differ")),
+                Ok(y) => {
+                    // (x, y) is on the line through p0 and p1; consistent with are_colinear_3 for a third abscissa
+                    let on = (p1.0 - p0.0) * (y - p0.1) == (p1.1 - p0.1) * (x - p0.0);
+                    let third = x == p0.0 || x == p1.0 || Polynomial::<FF>::are_colinear_3(p0, p1, (x, y));
+                    let interp = p0.0 == p1.0 || Polynomial::lagrange_interpolate(&[p0.0, p1.0], &[p0.1, p1.1]).evaluate_in_same_field(x) == y;
+                    Some(
+                        Out::ok(format!("ok:{}", show_list(&[y])))
+                            .with_oracle(p0.0 != p1.0, "get_colinear_y returned for a vertical line")
+                            .with_oracle(on, "get_colinear_y: the point is not on the line")
+                            .with_oracle(third, "get_colinear_y: are_colinear_3 rejects the returned point")
+                            .with_oracle(interp, "get_colinear_y != evaluate(interpolate(2 points))"),
+                    )
+                }
+            }
+        }
+        "tree_custom" => {
+            let mut pts = vec![];
+            let t = build_tree::<FF>(a.first()?, &mut pts, st)?;
+            let p = l(1)?;
+            let z = t.zerofier();
+            let r = Polynomial::new(p.clone()).divide_and_conquer_batch_evaluate(&t);
+            let ok_z = zerofier_ok(z.coefficients(), &pts);
+            let ok_e = r.len() == pts.len() && pts.iter().zip(&r).all(|(&x, &y)| horner(&p, x) == y);
+            Some(
+                Out::ok(format!("ok:{};{}", show_list(&r), show_poly(&z)))
+                    .with_oracle(ok_z, "hand-built tree: zerofier != prod (X - r_i)")
+                    .with_oracle(ok_e, "hand-built tree: evaluation != Horner in left-to-right order"),
+            )
+        }
+        _ => None,
+    }
+}
+/// coset evaluation / interpolation over the extension field with an extension-field offset (`S = XFieldElement`)
+fn run_xoff(op: &str, a: &[Arg], st: &mut Stats) -> Option<Out> {
+    type X = XFieldElement;
+    let dom = |off: X, n: usize| -> Option<Vec<X>> {
+        let omega = BFieldElement::primitive_root_of_unity(n as u64)?;
+        let mut acc = off;
+        Some(
+            (0..n)
+                .map(|_| {
+                    let d = acc;
+                    acc = acc * omega;
+                    d
+                })
+                .collect(),
+        )
+    };
+    match op {
+        "fast_coset_evaluate_xoff" => {
+            let p = parse_list::<X>(a.first()?)?;
+            let off = X::parse(a.get(1)?)?;
+            let order = a.get(2)?.usize()?;
+            st.hit(&format!("fast_coset_evaluate_xoff:order={}", order));
+            let r = Polynomial::new(p.clone()).fast_coset_evaluate(off, order);
+            let ok = dom(off, order).map(|d| r.len() == order && d.iter().zip(&r).all(|(&x, &y)| horner(&p, x) == y)).unwrap_or(false);
+            Some(Out::ok(format!("ok:{}", show_list(&r))).with_oracle(ok, "coset evaluation (extension-field offset) != Horner on offset*omega^i"))
+        }
+        "fast_coset_interpolate_xoff" => {
+            let off = X::parse(a.first()?)?;
+            let v = parse_list::<X>(a.get(1)?)?;
+            st.hit(&format!("fast_coset_interpolate_xoff:n={}", v.len()));
+            let f = Polynomial::fast_coset_interpolate(off, &v);
+            let ok = if v.is_empty() { f.degree() < 0 } else { dom(off, v.len()).map(|d| certificate(f.coefficients(), &d, &v)).unwrap_or(false) };
+            Some(Out::ok(format!("ok:{}", show_poly(&f))).with_oracle(ok, "coset interpolant (extension-field offset) fails certificate"))
+        }
         _ => None,
     }
 }
@@ -589,6 +732,18 @@ pub fn run_polyi(op: &str, args: &[Arg], st: &mut Stats) -> Option<Out> {
     let rest = &args[1..];
     if op == "barycentric_evaluate" {
         return run_bary(rest, st, &tag);
+    }
+    if op == "evaluate" && tag == "bx" {
+        // base-field polynomial at an extension-field point: evaluate::<XFieldElement, XFieldElement>
+        let p = parse_list::<BFieldElement>(rest.first()?)?;
+        let x = XFieldElement::parse(rest.get(1)?)?;
+        st.hit("evaluate:mixed-fields");
+        let r: XFieldElement = Polynomial::new(p.clone()).evaluate(x);
+        let lifted: Vec<XFieldElement> = p.iter().map(|&c| XFieldElement::new_const(c)).collect();
+        return Some(Out::ok(format!("ok:{}", show_list(&[r]))).with_oracle(r == horner(&lifted, x), "mixed-field evaluate != Horner"));
+    }
+    if tag == "x" && op.ends_with("_xoff") {
+        return run_xoff(op, rest, st);
     }
     match tag.as_str() {
         "b" => run::<BFieldElement>(op, rest, st),
@@ -949,6 +1104,7 @@ pub fn gen(rng: &mut Rng, thorough: bool, out: &mut Vec<String>) {
             }
         }
     }
+    gen_api(&mut g, thorough);
     {
         // the even/odd recursion of fast_modular_coset_interpolate at one (2^18) and two (2^19) levels, in every
         // tier: few points, base field, a fixed and a seeded offset (Rust side < 1 s in total; the model takes part)
@@ -1027,4 +1183,97 @@ pub fn gen(rng: &mut Rng, thorough: bool, out: &mut Vec<String>) {
             }
         }
     }
+}
+
+/// G07: ops for the public functions that had none (colinearity, hand-built trees, mixed fields, extension-field
+/// offsets) and the one dispatch arm the quick tier never reached (`interpolate` above 4096 points)
+fn gen_api(g: &mut G, thorough: bool) {
+    let reps = if thorough { 40 } else { 8 };
+    for _ in 0..reps {
+        for &n in &[0usize, 1, 2, 3, 4, 7] {
+            let tag = g.tag();
+            let xs = g.distinct_raw(tag, n);
+            let a = g.elem(tag);
+            let b = g.elem(tag);
+            let mode = g.r.below(4);
+            let mut ys: Vec<String> = vec![];
+            for i in 0..n {
+                ys.push(match mode {
+                    0 => b.clone(),                   // horizontal line: colinear
+                    1 if tag == "b" => xs[i].clone(), // y = x: colinear
+                    2 if i + 1 == n => a.clone(),     // horizontal except the last point
+                    2 => b.clone(),
+                    _ => g.elem(tag),
+                });
+            }
+            let mut xs2 = xs.clone();
+            if n >= 2 && g.r.coin(1, 5) {
+                xs2[n - 1] = xs2[0].clone();
+            }
+            g.push(format!("polyi are_colinear {} [{}] [{}]", tag, xs2.join(","), ys.join(",")));
+            if n == 3 {
+                g.push(format!("polyi are_colinear_3 {} [{},{}] [{},{}] [{},{}]", tag, xs2[0], ys[0], xs2[1], ys[1], xs2[2], ys[2]));
+            }
+            if n >= 2 {
+                let x = if g.r.coin(1, 4) { xs2[0].clone() } else { g.elem(tag) };
+                g.push(format!("polyi get_colinear_y {} [{},{}] [{},{}] {}", tag, xs2[0], ys[0], xs2[n - 1], ys[n - 1], x));
+            }
+        }
+        // y = 3x + 5 over the base field: genuinely sloped colinear points
+        let x0 = g.r.below(1 << 40);
+        let pts: Vec<(u64, u64)> = (0..4).map(|i| (x0 + i * 7, 3 * (x0 + i * 7) + 5)).collect();
+        g.push(format!("polyi are_colinear b [{},{},{},{}] [{},{},{},{}]", pts[0].0, pts[1].0, pts[2].0, pts[3].0, pts[0].1, pts[1].1, pts[2].1, pts[3].1));
+        g.push(format!("polyi are_colinear_3 b [{},{}] [{},{}] [{},{}]", pts[0].0, pts[0].1, pts[2].0, pts[2].1, pts[3].0, pts[3].1));
+        g.push(format!("polyi are_colinear_3 b [{},{}] [{},{}] [{},{}]", pts[0].0, pts[0].1, pts[2].0, pts[2].1, pts[3].0, pts[3].1 + 1));
+        g.push(format!("polyi get_colinear_y b [{},{}] [{},{}] {}", pts[0].0, pts[0].1, pts[1].0, pts[1].1, pts[3].0));
+    }
+    // hand-built zerofier trees: unbalanced, padding in any position, empty and oversized leaves
+    let shapes: [&str; 9] = ["L", "P", "(L;L)", "(L;P)", "(P;L)", "(P;P)", "((L;L);L)", "(L;((L;P);(L;L)))", "((P;L);(L;(L;L)))"];
+    for _ in 0..(if thorough { 10 } else { 2 }) {
+        for shape in shapes {
+            let tag = g.tag();
+            let mut out = String::new();
+            for ch in shape.chars() {
+                if ch == 'L' {
+                    let n = *g.r.pick(&[0usize, 1, 2, 5, 16, 17, 33]);
+                    let r = g.roots(tag, n);
+                    out.push_str(&r);
+                } else {
+                    out.push(ch);
+                }
+            }
+            let nc = *g.r.pick(&[0usize, 1, 2, 9, 40, 130]);
+            let p = g.poly(tag, nc);
+            g.push(format!("polyi tree_custom {} {} {}", tag, out, p));
+        }
+    }
+    {
+        // a leaf above the zerofier cut-off (Leaf::new -> fast_zerofier)
+        let r = g.roots("b", 101);
+        let p = g.poly("b", 300);
+        g.push(format!("polyi tree_custom b ({};P) {}", r, p));
+    }
+    // mixed fields; extension-field offsets
+    for &n in &[0usize, 1, 2, 3, 17, 64] {
+        let p = g.poly("b", n);
+        let x = g.elem("x");
+        g.push(format!("polyi evaluate bx {} {}", p, x));
+    }
+    for k in 0..=6u32 {
+        let n = 1usize << k;
+        for nc in [n / 2, n, n + 1] {
+            let p = g.poly("x", nc);
+            let off = g.elem("x");
+            g.push(format!("polyi fast_coset_evaluate_xoff x {} {} {}", p, off, n));
+        }
+        let off = g.elem("x");
+        let v = g.vals("x", n);
+        g.push(format!("polyi fast_coset_interpolate_xoff x {} {}", off, v));
+    }
+    g.push("polyi fast_coset_interpolate_xoff x (0;0;0) [(1;2;3),(4;5;6)]".into());
+    g.push("polyi fast_coset_evaluate_xoff x [(1;2;3)] (0;0;0) 2".into());
+    // `interpolate` above FAST_INTERPOLATE_CUTOFF_THRESHOLD_SEQUENTIAL: the divide-and-conquer arm of the dispatcher
+    let d = g.distinct("b", 4097);
+    let v = g.vals("b", 4097);
+    g.push(format!("polyi interpolate_dispatch b {} {}", d, v));
 }
